@@ -553,3 +553,25 @@ def list_blocks_present_set(ck, w, rid, rid0):
         else:
             ck.fail(oz, lb.name, "zero-length test changed", "is_none_or closure is not `len == 0`")
 
+
+
+NARROW_USE = re.compile(r"Iterator::(take|skip|step_by|nth|last|next|find|position|take_while|skip_while|max_by_key|min_by_key)$|"
+                        r"<impl \[T\]>::(first|last|get|split_at|split_first|split_last|chunks|windows)$|ops::Index<.*::index$|"
+                        r"Vec::<T, A>::(truncate|pop|remove|swap_remove|drain|split_off)$")
+WHOLE_THROUGH = [r"Iterator::(collect|cloned|copied|map)$", r"Itertools::collect_vec$", r"IntoIterator>?::into_iter$",
+                 r"Deref>?::deref$", r"<impl \[T\]>::iter$", r"Vec::<T, A>::as_slice$"]
+
+
+def narrowing_uses(lib, body, src_event):
+    """Events in `body` that take a prefix / slice / single element of the collection produced by `src_event`
+    (followed through collect, iter, map ... but not through a sort)."""
+    out = []
+    for x in body.events:
+        if x.bb not in body.live or x is src_event or not NARROW_USE.search(x.name) or not x.args:
+            continue
+        if x.name.endswith("Iterator::next") and x.term.get("exp"):
+            continue        # the next() of a desugared `for` loop consumes everything
+        oo = flow.origins_x(lib, body, x.args[0], through_all=WHOLE_THROUGH)
+        if any(o_[0] == "call" and o_[1] == src_event.name and o_[2] == src_event.bb for o_ in oo):
+            out.append(x)
+    return out
